@@ -183,7 +183,15 @@ def check_numpy(ctx, key, obj):
     raws = np.arange(n, dtype=np.uint64).astype(dtype)
     try:
         vals = obj.decode(raws, None)
+        keep = np.array(vals, copy=True)
         back = obj.encode(vals, None)
+        if not np.array_equal(vals, keep):
+            ctx.violation("encode-mutates-input:QuantizedNumPyArray", "encoding changed the caller's array in place",
+                          {"instance": key, "first_changed": int(np.nonzero(vals != keep)[0][0])})
+            return
+        if not np.array_equal(obj.encode(vals, None), back):
+            ctx.violation("encode-not-repeatable:QuantizedNumPyArray", "encoding the same array twice gave different results", {"instance": key})
+            return
     except Exception as e:
         ctx.violation("raises:QuantizedNumPyArray", "decode/encode raised", {"instance": key, "exc": repr(e)})
         return
